@@ -22,7 +22,7 @@ def main():
     out = []
     for st in rq["steps"]:
         try:
-            b = builder if st.get("share") else aoef.Builder()
+            b = builder if st.get("share") else (c02gen.SharingBuilder() if st.get("leaves") == "shared" else aoef.Builder())
             obj = c02gen.construct(b.collection(st["collection"]), st.get("how"))
             io.save(obj, path, audio_dir=aoef_impl.adir(st.get("audio_dir")))
             out.append(json.load(open(path))["data"])
